@@ -141,7 +141,7 @@ class NewsonKrummMatcher(BaseMatcher):
         :return:
         """
         d_z = self.map.distance(prev_m.edge_o.pi, edge_o.pi)
-        if prev_m.edge_m.label == edge_m.label:
+        if prev_m.edge_m.key == edge_m.key:
             d_x = self.map.distance(prev_m.edge_m.pi, edge_m.pi)
         else:
             d_x = self.map.distance(prev_m.edge_m.pi, prev_m.edge_m.p2) + self.map.distance(prev_m.edge_m.p2, edge_m.pi)
